@@ -238,8 +238,8 @@ def rule_guard(crate):
         else:
             viol(base + ":record", rf, rl, "the guard fields and the returned span / full name come from different unit records")
     out.analysed = {"unit_returns": n_ret, "prefixed_returns": k_pref, "table_rows_patterns": len(rows)}
-    out.floor("unit_returns", n_ret, 3)
-    out.floor("prefixed_returns", k_pref, 2)
+    out.floor("unit_returns", n_ret, 2)
+    out.floor("prefixed_returns", k_pref, 1)
     return out
 
 
